@@ -20,6 +20,8 @@ func c10(c *Ctx) {
 		"seq_no parity test whose odd edge acknowledges the message's own id; containers recurse through the same function."
 	r.NotDecided = []string{"that two ids drawn at least 4 ns apart differ (clock resolution), clock steps, server acceptance",
 		"all interleavings as schedules: the structural fact decided is the one that makes order schedule-independent"}
+	r.Rule("R10.I", "every item of a container is a message of its own (= R09.G container-item filed under C10): the element appended per item is created in that iteration, so each content-related item is acknowledged under its own msg_id", 1)
+	c.containerItemsDistinct("R10.I")
 	r.Rule("R10.M", "the send lock (and every other mutex of the client) is given back on every path to a return (= R16.M filed under C10): a send that leaves seqNoMutex held stops every later request", 10)
 	c.locksReleased("R10.M", c.repoFunctionsWithLocks())
 	r.Rule("R10.L", "GenerateMessageId, transport.WriteMsg and the seqNo update lie inside one seqNoMutex critical section of sendPacket", 3)
